@@ -8,6 +8,35 @@ from .ir import tag, show
 from .poly import poly, padd, pscale, psub, pconst
 
 
+def _self_bounded(f, loc, inc, inits, k):
+    """upper bound H of a counter incremented by 1 in a natural loop whose header leaves the loop exactly when `loc < H` fails"""
+    from .ir import subterms
+    if k != 1 or f.body.local_ty(loc[1]) not in ('usize', 'u64', 'u32'):
+        return None
+    cfg = f.cfg
+    cands = [(h, bl) for h, bl in cfg.loops().items() if inc.bb in bl]
+    if not cands:
+        return None
+    h, blocks = min(cands, key=lambda hb: len(hb[1]))
+    if any(i.bb in blocks or not cfg.dominates(i.bb, h) for i in inits):
+        return None
+    assigned = {st.target for st in f.stores() if st.bb in blocks and tag(st.target) == 'local'}
+    for s_, d_, cn, v in f.edge_conditions():
+        if s_ == h and d_ not in blocks and tag(cn) == 'bin' and isinstance(v, bool):
+            op, a, b = cn[1], cn[2], cn[3]
+            # leaving when (loc < H) is false, or when (H > loc) is false
+            if (op == 'Lt' and a == loc and v is False) or (op == 'Gt' and b == loc and v is False):
+                H = b if op == 'Lt' else a
+            elif (op == 'Ge' and a == loc and v is True) or (op == 'Le' and b == loc and v is True):
+                H = b if op == 'Ge' else a
+            else:
+                continue
+            if any(z in assigned for z in subterms(H)):
+                continue
+            return poly(H)
+    return None
+
+
 def counter_bounds(f):
     """local term -> (lower poly, upper poly) or nothing if not a recognised counter"""
     out = {}
@@ -42,7 +71,18 @@ def counter_bounds(f):
             v = s.value
             k = v[3][2] if tag(v) == 'bin' else v[1][3][2]
             encl = [li for li in loops if s.bb in li['blocks']]
+            nat = [(h_, bl_) for h_, bl_ in f.cfg.loops().items() if s.bb in bl_]
+            if nat and encl:
+                h_in = min(nat, key=lambda hb: len(hb[1]))[0]
+                if h_in not in [li['header'] for li in encl if li['item'] is not None]:
+                    encl = []          # the innermost loop around the increment is not a `for` loop
             if not encl:
+                # `while c < H { .. c += 1 }`: the counter bounds itself.  With an unsigned counter starting at 0 and increments of 1 the
+                # value never exceeds H (loop-invariant), whichever way the loop is left
+                wb = _self_bounded(f, loc, s, inits, k)
+                if wb is not None and lo == 0 and not hi:
+                    hi = wb
+                    continue
                 good = False
                 break
             inner = min(encl, key=lambda li: len(li['blocks']))
